@@ -22,7 +22,7 @@ ASSUMPTIONS = [
     'std::io::Write::write_all writes all bytes or fails (library contract)',
 ]
 MANIFEST = {'text': 'proof of: header layout agreement between writer and reader; every preserved field (reception time, ecu, timestamp and its presence, mcnt, endianness, extended header, payload) '
-                    'reaches a write sink; time split/join use one constant; convert -o writes exactly the messages it also selects for display, through to_write only.'}
+                    'reaches a write sink; time split/join use one constant; convert -o writes exactly the messages it also selects for display, through to_write only. Added: readers never add to the 16-bit length field in u16 (largest messages re-read completely); the writer\'s htyp/length table over all 32 valuations of byte order and optional parts agrees with the readers.'}
 
 WRITERS = {
     'adlt::dlt::DltStorageHeader::from_msg': ('agg', {'reception_time_us', 'ecu'}),
@@ -146,6 +146,17 @@ def run(F, chk):
     check_verbatim_copies(F, W5)
     W6 = chk.rule('W6', 'readers: the 16-bit length field of the standard header is widened before anything is added to it (16 + len can exceed u16 for the largest messages the writer emits)')
     check_len_widened(F, W6)
+    W7 = chk.rule('W7', 'convert: the file reader feeding the export keeps a whole maximal message of look-ahead (low mark >= DLT_MAX_STORAGE_MSG_SIZE, capacity >= low mark + cache line)')
+    import c04
+    maxmsg = F.consts.get('adlt::dlt::DLT_MAX_STORAGE_MSG_SIZE', {}).get('v')
+    cl = F.consts.get('adlt::utils::lowmarkbufreader::CACHE_LINE_SIZE', {}).get('v')
+    if maxmsg is None or cl is None:
+        W7.violation(('anchor-lost', 'constants'), 'DLT_MAX_STORAGE_MSG_SIZE / CACHE_LINE_SIZE not found')
+    else:
+        # a message larger than the look-ahead left in the window is answered with "not enough data", which the iterator takes
+        # for the end of the stream: the export silently ends there
+        n = c04.check_reader_configs(F, W7, maxmsg, cl, only=lambda b: b.crate == 'bin' and (b.closure_of or b.path).startswith('adlt_bin::convert::'))
+        W7.floor('LowMarkBufReader constructions in convert', n, 1)
 
 
 def check_endian_bit(F, W1):
